@@ -36,6 +36,7 @@ def build(P):
     # ---------------------------------------------------------------- which results AP counts as TP: exactly the correct ones at the label's threshold, whatever number type it has
     import contracts.C04 as C04
     C04.tp_fp_tasks(P, models=False)
+    C04.init_tasks(P)       # ... over every result of every frame, ranked once, the caller's lists untouched (scene level)
     # ---------------------------------------------------------------- a TP stays a TP under a looser threshold (ordinary ground truth)
     RES = TSObj("DynamicObjectWithPerceptionResult")
     for mode in C03.MODES:
